@@ -63,6 +63,11 @@ func (c *Conversation) calcDHSharedSecret() *big.Int {
 }
 
 func (c *Conversation) generateEncryptedSignature(key *akeKeys) ([]byte, error) {
+	if c.ourCurrentKey == nil {
+		// a conversation without a long-term key cannot sign the exchange
+		return nil, newOtrError("no long-term key to sign the key exchange with")
+	}
+
 	verifyData := appendAll(c.ake.ourPublicValue, c.ake.theirPublicValue, c.ourCurrentKey.PublicKey(), c.ake.keys.ourKeyID)
 
 	mb := sumHMAC(key.m1, verifyData, c.version)
